@@ -17,5 +17,5 @@ CONSTANTS
   ESet <- E_None
   HdrSet <- H_None
 SPECIFICATION Spec
-INVARIANTS Conforms ConformsMixed StepRunAgrees ChunkListOK WindowStable MeasureSound UsedIsCoverage
+INVARIANTS Conforms StepRunAgrees ChunkListOK WindowStable MeasureSound UsedIsCoverage
 CHECK_DEADLOCK FALSE
